@@ -250,6 +250,26 @@ pub fn compute_checksum(header: &WalFrameHeader, page_data: &[u8]) -> u64 {
     digest.finalize()
 }
 
+/// Verification hook: reports every frame that a replay loop applies to a storage, in order:
+/// `wal_apply(file_id, page_no << 32 | db_size)` then `wal_apply_img(first 8 page bytes LE, salt1 << 32 | salt2)`.
+#[cfg(kahflane_turdb_verif)]
+fn verif_replay_event(header: &WalFrameHeader, page_data: &[u8]) {
+    crate::verif_hooks::io_event(
+        "wal_apply",
+        "",
+        header.file_id,
+        ((header.page_no as u64) << 32) | header.db_size as u64,
+    );
+    let mut first = [0u8; 8];
+    first.copy_from_slice(&page_data[..8]);
+    crate::verif_hooks::io_event(
+        "wal_apply_img",
+        "",
+        u64::from_le_bytes(first),
+        ((header.salt1 as u64) << 32) | header.salt2 as u64,
+    );
+}
+
 pub fn validate_checksum(header: &WalFrameHeader, page_data: &[u8]) -> bool {
     let computed = compute_checksum(header, page_data);
     computed == header.checksum
@@ -463,6 +483,8 @@ impl Wal {
                 })?;
 
                 page_mut.copy_from_slice(&page_data);
+                #[cfg(kahflane_turdb_verif)]
+                verif_replay_event(&header, &page_data);
                 frames_applied += 1;
             }
         }
@@ -505,6 +527,8 @@ impl Wal {
                 })?;
 
                 page_mut.copy_from_slice(&page_data);
+                #[cfg(kahflane_turdb_verif)]
+                verif_replay_event(&header, &page_data);
                 frames_applied += 1;
             }
         }
@@ -585,6 +609,8 @@ impl Wal {
                 })?;
 
                 page_mut.copy_from_slice(&page_data);
+                #[cfg(kahflane_turdb_verif)]
+                verif_replay_event(&header, &page_data);
                 frames_applied += 1;
             }
         }
